@@ -37,6 +37,8 @@ def main():
     build_harness(['owrun'])
     rng = c.rng
     quick = c.tier == 'quick'
+    illcond = [0, 0]          # accepted by the measured-sensitivity test: model-vs-code, code-vs-published
+    illamp = [0.0, 0.0]       # largest measured amplification (relative output change per relative input change)
     reps = 16 if quick else 60
     lengths = [1, 2, 7, 40, 120, 400] if quick else [0, 1, 2, 7, 40, 120, 400, 1000]
 
@@ -104,9 +106,12 @@ def main():
             odd_panics += 1
         diff = kresults_agree(ri, rm, rtol=1e-9, atol=abs_tol(ps, st, rain))
         if diff and ri[0] == 'OK' and rm[0] == 'OK':
-            ps2, rain2, pet2 = perturb_case('GR4J', ps, rain, pet)
-            rp = parse_kresult(run_model([kcase('GR4J', ps2, st, [rain2, pet2])])[0])
-            diff = conditioned_agree(ri, rm, rp, 1e-9, abs_tol(ps, st, rain))
+            info = {}
+            diff = conditioned_agree(ri, rm, [parse_kresult(l) for l in run_model(perturbed_lines('GR4J', ps, st, rain, pet))],
+                                     1e-9, abs_tol(ps, st, rain), info=info, weights=perturbed_weights('GR4J', ps, st, rain, pet))
+            if not diff:
+                illcond[0] += 1
+                illamp[0] = max(illamp[0], info.get('amplification', 0.0))
         if diff:
             c.corr_broken.append({'case': ['malformed', ps, st[:4], len(st), len(rain)], 'diff': diff, 'line': line[:4000]})
 
@@ -114,7 +119,6 @@ def main():
     impl = run_impl(lines)
     model = run_model(lines)
     classes = {}
-    illcond = [0, 0]
     corr_retry = []
     for i, (cs, li, lm) in enumerate(zip(cases, impl, model)):
         ri, rm = parse_kresult(li), parse_kresult(lm)
@@ -128,9 +132,10 @@ def main():
             d2 = diff
             if len(corr_retry) < 200:         # measured-sensitivity second chance (see rrlib), one model run each
                 corr_retry.append(i)
-                ps2, rain2, pet2 = perturb_case('GR4J', cs['ps'], cs['rain'], cs['pet'])
-                rp = parse_kresult(run_model([kcase('GR4J', ps2, cs['st0'], [rain2, pet2])])[0])
-                d2 = conditioned_agree(ri, rm, rp, 1e-9, atol_c)
+                info = {}
+                d2 = conditioned_agree(ri, rm, [parse_kresult(l) for l in run_model(perturbed_lines('GR4J', cs['ps'], cs['st0'], cs['rain'], cs['pet']))],
+                                       1e-9, atol_c, info=info, weights=perturbed_weights('GR4J', cs['ps'], cs['st0'], cs['rain'], cs['pet']))
+                illamp[0] = max(illamp[0], info.get('amplification', 0.0)) if not d2 else illamp[0]
             if d2:
                 c.corr_broken.append({'case': [cs['ps'], cs['regime'], len(cs['rain'])], 'diff': diff, 'conditioned': d2, 'line': lines[i][:4000]})
             else:
@@ -155,9 +160,16 @@ def main():
             if feq(a, b, RTOL, atol_o):
                 continue
             if sens is None:          # measured sensitivity of the published equations (see rrlib.perturb_case)
-                ps2, rain2, pet2 = perturb_case('GR4J', cs['ps'], cs['rain'], cs['pet'])
-                pq, ps_, pr_, pq1, pq9 = published_gr4j(ps2[0], ps2[1], ps2[2], ps2[3], s0, r0, q10, q90, rain2, pet2)
-                sens = [abs(u - v) for u, v in zip(ref_all, pq + [ps_, pr_] + pq1 + pq9)]
+                # several perturbed evaluations of the published equations (parameters, alternating parameters, forcing,
+                # initial stores; both signs, two magnitudes; see rrlib.perturbed_cases), largest weighted deviation
+                sens = [0.0] * len(ref_all)
+                pcs = perturbed_cases('GR4J', cs['ps'], cs['st0'], cs['rain'], cs['pet'])
+                for (dl, ps2, st2, rain2, pet2), w in zip(pcs, perturbed_weights('GR4J', cs['ps'], cs['st0'], cs['rain'], cs['pet'])):
+                    s2, r2, _, _, q12, q92 = gr4j_unpack(st2)
+                    pq, ps_, pr_, pq1, pq9 = published_gr4j(ps2[0], ps2[1], ps2[2], ps2[3], s2, r2, q12, q92, rain2, pet2)
+                    for j, (u, v) in enumerate(zip(ref_all, pq + [ps_, pr_] + pq1 + pq9)):
+                        sens[j] = max(sens[j], w * abs(u - v) if math.isfinite(u) and math.isfinite(v) else float('inf'))
+                illamp[1] = max(illamp[1], max((sv / max(abs(u), 1e-3) for sv, u in zip(sens, ref_all) if math.isfinite(sv)), default=0.0) / 1e-14)
                 for j in range(1, len(sens)):     # running maximum: an expanding map keeps the separation it has reached
                     sens[j] = max(sens[j], sens[j - 1])
             if math.isfinite(a) and abs(a - b) <= atol_o + RTOL * max(abs(a), abs(b)) + KCOND * sens[k]:
@@ -181,7 +193,7 @@ def main():
                      'and through an independent float64 implementation of the published equations (S-curve functions, convolution routing) '
                      'compared at rtol 1e-9 / atol max(1e-10 mm, 1e-10*scale) on every runoff value and every final store; plus a malformed stream (state-vector lengths not matching ceil(x4), short/over-long vectors, n1=0, x4 outside the range) compared model-vs-code only; non-trivial = some rain or non-empty UH stores; distinct = distinct (parameters, initial states, series)'
                      % ('0.125' if quick else '0.03125'))
-    c.finish(extra_cov={'uh_length_classes': {'%d/%d' % k: v for k, v in sorted(classes.items())}, 'x4_values': len(x4_grid(quick)), 'malformed_cases': len(odd), 'malformed_panics_impl': odd_panics, 'ill_conditioned_cases_accepted': {'model_vs_code': illcond[0], 'code_vs_published': illcond[1]},
+    c.finish(extra_cov={'uh_length_classes': {'%d/%d' % k: v for k, v in sorted(classes.items())}, 'x4_values': len(x4_grid(quick)), 'malformed_cases': len(odd), 'malformed_panics_impl': odd_panics, 'ill_conditioned_cases_accepted': {'model_vs_code': illcond[0], 'code_vs_published': illcond[1]}, 'ill_conditioned_max_amplification': {'model_vs_code': illamp[0], 'code_vs_published': illamp[1]},
                         'exhaustive': False},
              assumptions=['theorems are over exact reals (RArith); the float comparison against the published equations is testing with tolerance 1e-9',
                           'the implementation caps the tanh argument at 13; the published equations have no cap: the equality theorem is stated for '
